@@ -65,12 +65,17 @@ Comp == { CompString(L, k, lead, a, trail) :
             L \in (MinTag-1)..(MaxTag+2), k \in 1..(MaxSegs+1), lead \in 0..2,
             a \in 1..2, trail \in 0..1 } \ {<<>>}
 
+\* names assembled by the app / biz / rpc helpers around the length bound: "_" main "_" sub [ "_" action ]
+HelperString(a, b) == <<"u">> \o Rep("l", 3) \o <<"u">> \o Rep("l", a) \o (IF b = 0 THEN <<>> ELSE <<"u">> \o Rep("d", b))
+HelperComp == { HelperString(a, b) : a \in (MaxTag - 9)..(MaxTag - 3), b \in 0..2 }
+
 (***************************** string explorer *****************************)
 VARIABLES s, q, mode
 svars == <<s, q, mode>>
 
 SInit == \/ s = <<>> /\ q = Q0 /\ mode = "grow"
          \/ \E c \in Comp : s = c /\ q = FoldLeft(Step, Q0, c) /\ mode = "comp"
+         \/ \E c \in HelperComp : s = c /\ q = FoldLeft(Step, Q0, c) /\ mode = "helper"
 
 Grow(c) == /\ mode = "grow" /\ Len(s) < MaxLen
            /\ s' = Append(s, c) /\ q' = Step(q, c) /\ UNCHANGED mode
